@@ -67,6 +67,11 @@ RULE = ("histories of 1-2 colliding keys with 2-6 arrivals each (plus unique fea
         "value lists are one object, Feature objects made with copy.copy() from an earlier one with an own mapping (Attributes or "
         "dict) holding the template's list objects -, every strategy, unique features appended after the collisions; the shared "
         "list objects must hold afterwards what they held before; "
+        "look-alike column variants of one key - column tuples that differ although the characters of two columns are merely "
+        "redistributed across the boundary between them (start 1 / end 123 against 11 / 23, seqid chr1 / source A against chr / 1A; "
+        "neighbouring columns and columns that become neighbours once force_merge_fields exempts one), values of two columns "
+        "exchanged, another letter case, proper prefixes -, arriving in either order, again later and next to variants that differ "
+        "in a forced column only, mostly merge (half with force_merge_fields), every strategy, GFF3 and GTF, create_db and update; "
         "one update() per quick run (thorough: every strategy) made while another sqlite3 connection holds a write "
         "transaction for 6.5-7 s (> the 5 s busy timeout) and then releases it, no key colliding; every stored feature is also read through the live "
         "handle (db[key], str(), region(completely_within=True) and all_features(limit=) at its position); non-trivial = >= 3 arrivals on one key; "
@@ -173,6 +178,17 @@ REQUIRED = ["histories", "arrivals", "stored features compared", "attribute valu
             for m in SHARE_MODES for w in ("create_db", "create_db + update()")] + [
             "histories whose features share value-list objects: strategy=%s" % st
             for st in ("warning", "replace", "create_unique", "merge")] + [
+            # look-alike column variants
+            "merge: the newcomer's checked columns differ from an earlier arrival's of the key but read the same when "
+            "written one after the other: spawned",
+            "merge: the newcomer's checked columns differ from an earlier arrival's of the key but read the same when "
+            "written one after the other: merged into spawn",
+            "merge: boundary-shifted newcomer (create_db)", "merge: boundary-shifted newcomer (update())",
+            "merge: boundary-shifted newcomer, force_merge_fields not empty",
+            "look-alike column variants: histories judged, gff3, create_db",
+            "look-alike column variants: histories judged, gff3, create_db + update()",
+            "look-alike column variants: histories judged, gtf, create_db",
+            "look-alike column variants: histories judged, gtf, create_db + update()",
             # transient lock
             "transient lock: update() calls made while another connection held a write transaction > 5 s",
             "transient-lock cases judged"]
@@ -196,7 +212,8 @@ REQUIRED_CLASSES = (["strategy=" + s for s in M.STRATEGIES] + ["fmt=gff3", "fmt=
                     + ["key not from an attribute (%s): strategy=%s" % (f, s) for f in ("field", "callable", "autoid") for s in M.STRATEGIES]
                     + ["key not from an attribute: fmt=%s path=%s" % (f, p) for f in ("gff3", "gtf") for p in ("create", "create+update")]
                     + ["shared value lists (%s): strategy=merge" % m for m in SHARE_MODES]
-                    + ["shared value lists: fmt=%s path=%s" % (f, p) for f in ("gff3", "gtf") for p in ("create", "create+update")])
+                    + ["shared value lists: fmt=%s path=%s" % (f, p) for f in ("gff3", "gtf") for p in ("create", "create+update")]
+                    + ["look-alike column variants (%s): strategy=merge" % k for k in ("boundary", "swap", "case", "prefix")])
 ASSUMPTIONS = [
     "one strategy, one force_merge_fields set and one id_spec per history (create_db and every update alike)",
     "a history in which the fresh '<key>_n' is already the key of another feature, or in which two candidates agree with "
@@ -237,6 +254,8 @@ ASSUMPTIONS = [
     "features sharing value-list objects: the feature handed to the importer has the values its lists hold when it is handed "
     "over (after the transform); a stored feature has its own values whoever else references the list objects, and the "
     "caller's list objects hold afterwards what they held before (reason 'shared')",
+    "columns agree when each column has the same value (compared column by column, as the strings of the file); look-alike "
+    "variants use letters and digits only, start <= end, no leading zeros",
     "transient lock: update() may raise sqlite3.OperationalError (then only a retry of the same update on a fresh handle, "
     "after the release, is judged) or return normally; either way the content must be the model's. Only update() is "
     "exercised (create_db makes its own file)",
@@ -1049,7 +1068,7 @@ def execute_locked(ctx, case):
     return store
 
 
-def account(ctx, case, store):
+def account(ctx, case, store, klass=None):
     if store is None:
         return
     if store is True:
@@ -1107,12 +1126,12 @@ def account(ctx, case, store):
               case.get("modes"), [[bool(p) for p in bl] for bl in case.get("built") or []], case["kind"],
               str(case.get("repeats")), [len(b) for b in case["batches"]] if case.get("repeats") else None,
               case.get("wfilter"), str(case.get("keyspec")), case["spec_form"],
-              str(sorted((case.get("share") or {}).items()))),
+              str(sorted((case.get("share") or {}).items())), str(sorted((case.get("look") or {}).items()))),
              many or case["kind"] == "locked" or bool(case.get("repeats")) or any(w.startswith("merged") for w in store.log)
              and case["kind"] in ("keyless", "shared"),
              sample={"strategy": case["strategy"], "force": case["force"], "fmt": case["fmt"], "arrivals": store.log,
                      "verbose": case.get("verbose", "not given"),
-                     "input": [text_of(b, case["fmt"]) for b in case["batches"]][:2]})
+                     "input": [text_of(b, case["fmt"]) for b in case["batches"]][:2]}, cls=klass)
 
 
 def draw_opts(rng, fmt, shuffle=None):
@@ -1130,6 +1149,161 @@ def draw_opts(rng, fmt, shuffle=None):
         o["farbins"] = True
     o["verbose"] = rng.choice([None, False, True, "debug"])
     return o
+
+
+# ---- look-alike column variants (block 2l) ---------------------------------------------------------------------------
+# Column tuples of one key that DIFFER but are easily taken for equal: the characters of two columns redistributed across
+# the boundary between them (start 1 / end 123 against start 11 / end 23; seqid chr1 / source A against chr / 1A), the
+# values of two columns exchanged, a value in another letter case, a value that is a proper prefix of the other.
+LOOK_KINDS = ("boundary", "swap", "case", "prefix")
+LOOK_POOL = {
+    "seqid": ["chr1", "chr12", "c21", "chrX"],
+    "source": ["s1", "AB", "src2", "1A"],
+    "featuretype": ["exon", "CDS", "UTR5"],
+    "start": ["1", "11", "12", "2", "23"],
+    "end": ["123", "1234", "234", "2345", "345"],
+    "score": [".", "15", "25", "0.5", "5"],
+    "strand": ["+", "-", "."],
+    "frame": [".", "0", "1", "2"],
+}
+LOOK_TEXT = ("seqid", "source", "featuretype")
+LOOK_SHIFTABLE = ("seqid", "source", "featuretype", "start", "end", "score")
+
+
+def look_valid(cols):
+    import re
+
+    for c in LOOK_TEXT:
+        if not re.match(r"^[A-Za-z0-9]+$", cols[c]) or cols[c].isdigit():
+            return False
+    for c in ("start", "end"):
+        if not re.match(r"^[1-9][0-9]{0,7}$", cols[c]):
+            return False
+    if int(cols["start"]) > int(cols["end"]):
+        return False
+    if cols["featuretype"] == "mRNA":
+        return False
+    return cols["score"] == "." or bool(re.match(r"^(0|[1-9][0-9]*)(\.[0-9]+)?$", cols["score"]))
+
+
+def look_shifts(cols, pairs):
+    """Every valid tuple that differs from cols by moving 1-2 characters across the boundary between columns a and b."""
+    out = []
+    for a, b in pairs:
+        for k in (1, 2):
+            for new_a, new_b in ((cols[a][:-k], cols[a][-k:] + cols[b]), (cols[a] + cols[b][:k], cols[b][k:])):
+                new = dict(cols)
+                new[a], new[b] = new_a, new_b
+                if new_a and new_b and new != cols and look_valid(new):
+                    out.append(new)
+    return out
+
+
+def look_variant(rng, cols, force, kind):
+    """A look-alike of cols that differs from it in at least one column outside force (None: none exists)."""
+    checked = [c for c in M.COLS if c not in force]
+    if kind == "boundary":
+        adjacent = [(a, b) for a, b in zip(checked, checked[1:]) if a in LOOK_SHIFTABLE and b in LOOK_SHIFTABLE]
+        anyp = [(a, b) for i, a in enumerate(checked) for b in checked[i + 1:] if a in LOOK_SHIFTABLE and b in LOOK_SHIFTABLE]
+        cands = look_shifts(cols, adjacent if rng.random() < 0.7 else anyp) or look_shifts(cols, anyp)
+    elif kind == "swap":
+        cands = []
+        for a, b in (("seqid", "source"), ("source", "featuretype"), ("seqid", "featuretype")):
+            if a in checked or b in checked:
+                new = dict(cols)
+                new[a], new[b] = cols[b], cols[a]
+                cands.append(new)
+    elif kind == "case":
+        cands = [dict(cols, **{c: cols[c].swapcase()}) for c in LOOK_TEXT if c in checked]
+    else:
+        cands = [dict(cols, **{c: cols[c] + t}) for c in LOOK_SHIFTABLE if c in checked and cols[c] != "." for t in ("1", "0")]
+        cands += [dict(cols, **{c: cols[c][:-1]}) for c in LOOK_SHIFTABLE if c in checked and len(cols[c]) > 1]
+    cands = [n for n in cands if n != cols and look_valid(n) and any(n[c] != cols[c] for c in checked)]
+    return rng.choice(cands) if cands else None
+
+
+def concat_alike(a, b, force):
+    """The columns outside force differ, but written one after the other (in the column order) they read the same."""
+    checked = [c for c in M.COLS if c not in force]
+    return any(a[c] != b[c] for c in checked) and "".join(a[c] for c in checked) == "".join(b[c] for c in checked)
+
+
+def gen_lookalike(rng, fmt, strategy, force, path, kind):
+    idkey = "ID" if fmt == "gff3" else rng.choice(["fid", "ID"])
+    recs = []
+    if fmt == "gff3":
+        for p in G.PARENTS[:3]:
+            if rng.random() < 0.6:
+                cols = dict(G.columns(rng), featuretype="mRNA")
+                recs.append(dict(cols, attrs=[["ID", [p]], ["Note", ["parent"]]], extra=[]))
+    base = None
+    for _ in range(50):
+        base = dict((c, rng.choice(LOOK_POOL[c])) for c in M.COLS)
+        first = look_variant(rng, base, force, kind) if look_valid(base) else None
+        if first is not None:
+            break
+    else:
+        return None
+    variants = [base, first]
+    if rng.random() < 0.5:                      # a second look-alike, of the base or of the first one
+        v = look_variant(rng, rng.choice(variants), force, rng.choice(LOOK_KINDS) if rng.random() < 0.3 else kind)
+        if v is not None and v not in variants:
+            variants.append(v)
+    free = [c for c in force if c in G.VALUES]
+    if free and rng.random() < 0.6:             # the same columns up to a forced one: merges
+        src = rng.choice(variants[:2])
+        c = rng.choice(free)
+        v = dict(src, **{c: rng.choice([x for x in LOOK_POOL[c] if x != src[c]])})
+        if look_valid(v) and v not in variants:
+            variants.append(v)
+    key = rng.choice(G.BASES)
+    order = [0, 1]
+    rng.shuffle(order)
+    order += [rng.randrange(len(variants)) for _ in range(rng.choice([0, 1, 1, 2, 3]))]
+    for i, vi in enumerate(order):
+        recs.append(dict(variants[vi], attrs=G.attributes(rng, fmt, idkey, key), extra=[]))
+        if rng.random() < 0.2:
+            u = "u%d" % len(recs)
+            recs.append(dict(G.columns(rng), attrs=G.attributes(rng, fmt, idkey, u), extra=[]))
+    if path == "create" or len(recs) < 2:
+        batches = [recs]
+    else:
+        ncut = 1 if (len(recs) < 4 or rng.random() < 0.6) else 2
+        cuts = sorted(rng.sample(range(1, len(recs)), ncut))
+        batches = [recs[i:j] for i, j in zip([0] + cuts, cuts + [len(recs)])]
+    return {
+        "kind": "history", "fmt": fmt, "strategy": strategy, "force": list(force), "idkey": idkey,
+        "spec_form": rng.choice(["default", "str"]) if (fmt == "gff3" and idkey == "ID") else rng.choice(["str", "list"]),
+        "batches": batches, "reopen": rng.random() < 0.4,
+        "db": "file" if (len(batches) > 1 or rng.random() < 0.25) else "memory",
+        "pass_force_anyway": strategy != "merge" and rng.random() < 0.3,
+        "pattern": [tuple(str(v) for v in order)], "look": {"kind": kind, "key": key},
+    }
+
+
+def observed_lookalike(ctx, case, store):
+    """What the judged history exercised: collisions of a newcomer with an earlier arrival of its key whose columns differ
+    from its own only by a look-alike."""
+    kind, key, st = case["look"]["kind"], case["look"]["key"], case["strategy"]
+    nb = len(case["batches"])
+    ctx.mon("look-alike column variants (%s): histories judged" % kind)
+    ctx.mon("look-alike column variants: histories judged, %s, %s" % (case["fmt"], "create_db" if nb == 1 else "create_db + update()"))
+    force = case["force"] if st == "merge" else []
+    recs = [(bi, r) for bi, b in enumerate(case["batches"]) for r in b]
+    seen = []
+    for (bi, r), word in zip(recs, store.log):
+        if dict((k, v) for k, v in r["attrs"])[case["idkey"]][0] != key:
+            continue
+        cols = dict((c, r[c]) for c in M.COLS)
+        if any(concat_alike(cols, o, force) for o in seen):
+            what = "spawned" if word.startswith("spawned") else word
+            ctx.mon("%s: the newcomer's checked columns differ from an earlier arrival's of the key but read the same when "
+                    "written one after the other: %s" % (st, what))
+            if st == "merge":
+                ctx.mon("merge: boundary-shifted newcomer (%s)" % ("create_db" if bi == 0 else "update()"))
+                if force:
+                    ctx.mon("merge: boundary-shifted newcomer, force_merge_fields not empty")
+        seen.append(cols)
 
 
 def run(ctx):
@@ -1264,6 +1438,21 @@ def run(ctx):
         mode = ("transform", "objects", "clone", "transform", "iterator", "clone-dict")[(i // 2) % 6]
         case = G.gen_shared(rng, fmt, strategy, force, mode, opts=draw_opts(rng, fmt))
         account(ctx, case, execute(ctx, case))
+    # 2l. look-alike column variants of one key: columns that differ but whose characters are merely redistributed across the
+    #     boundary of two columns (also the columns that become neighbours once force_merge_fields takes one out), exchanged
+    #     values, other letter case, proper prefixes; mostly merge, every strategy, GFF3 and GTF, create_db and update
+    for i in range(ctx.budget(700, 16000)):
+        strategy = "merge" if i % 4 else rng.choice(M.STRATEGIES)
+        force = rng.choice(M.subsets()) if strategy == "merge" and rng.random() < 0.5 else []
+        fmt = rng.choice(["gff3", "gff3", "gtf"])
+        kind = "boundary" if i % 3 else rng.choice(LOOK_KINDS[1:])
+        case = gen_lookalike(rng, fmt, strategy, force, rng.choice(["create", "update"]), kind)
+        if case is None:
+            continue
+        st = execute(ctx, case)
+        if st is not None:
+            observed_lookalike(ctx, case, st)
+        account(ctx, case, st, klass="look-alike column variants (%s): strategy=%s" % (kind, strategy))
     # 2g. a transient lock held by another connection while update() inserts; nothing collides.  Quick: one case on the
     #     last shard; thorough: every strategy, one per shard
     if ctx.tier == "quick":
